@@ -446,8 +446,8 @@ func (r *Rng) setterValue(k int) string {
 }
 
 func (r *Rng) spName() string {
-	return r.Pick([]string{"a", "b", "a", "A", "", "k&", "k=", "k+", "k%", "%41", "%2B", "k k", "é", "\xff", "#", "a&b=c", "z", "aa", "a\x00", "\uE000", "\U0001F600", "?", "/", "'", "\"", "<", "`", "\uFFFDkey", "caf\uFFFD"})
+	return r.Pick([]string{"a", "b", "a", "A", "", "k&", "k=", "k+", "k%", "%41", "%2B", "k k", "é", "\xff", "#", "a&b=c", "z", "aa", "a\x00", "\uE000", "\U0001F600", "?", "/", "'", "\"", "<", "`", "\uFFFDkey", "caf\uFFFD", "\uFEFFbom", "\uFEFF", "k\uFEFF"})
 }
 func (r *Rng) spValue() string {
-	return r.Pick([]string{"1", "2", "", "v v", "v&w", "v=w", "1+1", "100%", "%41", "%zz", "é", "\xff", "#f", "a/b?c", "\t", "'", "\"<>", "\u2028", "caf\uFFFD!", "\uFFFD"})
+	return r.Pick([]string{"1", "2", "", "v v", "v&w", "v=w", "1+1", "100%", "%41", "%zz", "é", "\xff", "#f", "a/b?c", "\t", "'", "\"<>", "\u2028", "caf\uFFFD!", "\uFFFD", "\uFEFF", "\uFEFFv"})
 }
